@@ -20,6 +20,7 @@ def run(ctx):
     ctx.trusted_base.append('engine/effects.py (effect vocabulary)')
     ar.parts_first_rule(ctx, 'R19.1')
     ar.fresh_part_rule(ctx, 'R19.2')
+    ar.single_file_route_rule(ctx, 'R19.12')
     ar.error_discipline_rule(ctx, 'R19.3')
     ar.io_ownership_rule(ctx, 'R19.4')
     ar.no_remove_rename_rule(ctx, 'R19.5')
